@@ -228,6 +228,41 @@ def run(ctx: Ctx):
                              {"reproduce": f"AngularGrid(degree={req}, method='{meth}', cache=False)"})
     ctx.count("grids_built", nbuilt)
 
+    # ---------------- the same with caching ON, all methods interleaved in both orders within one process
+    # (the module-level caches are keyed by degree only: a grid must still carry its own method's table row and data)
+    import grid.angular as ga2
+    caches = [ga2.LEBEDEV_CACHE, ga2.SPHERICAL_CACHE, ga2.MAX_DET_CACHE, ga2.AHRENS_BEYLKIN_CACHE]
+    for c in caches:
+        c.clear()
+    ncached = 0
+    try:
+        for order in (METHODS, METHODS[::-1]):
+            for meth, P, _, ddir in order:
+                t = tabs[f"{P}_DEGREES"]
+                for d in [d for d in sorted(t) if t[d] <= (1500 if ctx.quick else 6000)]:
+                    with warnings.catch_warnings():
+                        warnings.simplefilter("ignore")
+                        try:
+                            g = AngularGrid(degree=d, method=meth)  # cache=True (default)
+                            obs = (int(g.degree), int(g.size), len(g.points), len(g.weights))
+                            with np.load(SRC / "data" / ddir / f"{meth}_{d}_{t[d]}.npz") as data:
+                                same = np.array_equal(g.points, data["points"])
+                        except Exception as e:  # noqa: BLE001
+                            obs, same = ("crash", type(e).__name__, str(e)[:80]), False
+                    exp = (d, t[d], t[d], t[d])
+                    ncached += 1
+                    ctx.case(("cached", meth, d, order is METHODS))
+                    if obs != exp or not same:
+                        ctx.fail("corr_built_cached", f"built-cached:{meth}:{d}", str(obs),
+                                 f"with caching on and other methods built before, AngularGrid(degree={d}, method={meth}) has "
+                                 f"(degree,size,npoints,nweights)={obs}, expected {exp}; points equal the data file: {same}",
+                                 {"reproduce": "clear the four caches; for m in methods (then reversed): AngularGrid(degree=d, method=m) for every supported d; "
+                                               f"then look at AngularGrid(degree={d}, method='{meth}')"})
+    finally:
+        for c in caches:
+            c.clear()
+    ctx.count("grids_built_cached", ncached)
+
     # ---------------- convert_angular_sizes_to_degrees vs model (random sequences, incl. duplicates)
     cases, meta = [], []
     ctor = {m: c for m, _, c, _ in METHODS}
